@@ -49,7 +49,7 @@ CHECKS = {
          'Version list/acceptance/echo, 21 per-operation gates vs the specification, Query evaluated under each of the 6 versions against the gated dispatch '
          'table, DiscoverVersions provenance, encode-version dataflow in the session, attribute added/deprecated gating sites and agreement of the two '
          'attribute-version registries. Exhaustive over the finite version x operation x attribute grid by construction.',
-         'Trusted: ProtocolVersion comparison operators; the frozen specification tables (T_OPMIN, T_ATTR_ADDED, T_ATTR_DEPRECATED).'),
+         'Trusted: the frozen specification tables (T_OPMIN, T_ATTR_ADDED, T_ATTR_DEPRECATED).'),
  'C19': ('CFG dominance + reaching definitions over the 21 client operations and KMIPProxy; structural check of the receive loop; composition of the two version mappings',
          'Every data return of every client operation is dominated by the success test on the result\'s own status, the failure edge raises the '
          'result\'s own (status, reason, message); 48 result constructions take the triple from the same-named batch-item fields; decode errors '
@@ -111,8 +111,7 @@ CHECKS = {
  'C01': ('TTLV schema extraction from read()/write() ASTs and per-version sequence alignment; constant folding of primitive bounds vs struct formats; exhaustive evaluation of padding arithmetic over residues; registry sibling agreement',
          'PARTIAL CLAIM (structure): 105 structure classes x 6 versions (630 comparisons) reader/writer element sequences and presence agree; primitive bounds fit their '
          'pack formats; padding arithmetic correct for all 8 residues; by-name/by-tag attribute registries and both payload factories agree; Template<->Attributes '
-         'converters inverse. These are necessary conditions of the round trip for every constructible value. Value-level byte/values identity (e.g. non-ASCII text, '
-         'BigInteger sign boundaries) is NOT decided.',
+         'converters inverse. These are necessary conditions of the round trip for every constructible value. Value-level byte/value identity for all values (e.g. non-ASCII text) is NOT decided.',
          'Trusted: struct module semantics; each child object obeys its own class schema (compositional).'),
  'C02': ('comparison of code constants with a specification table (independent oracle), CFG ordering check of all 105 structure writers, envelope dataflow',
          'PARTIAL CLAIM (structure): type codes, fixed lengths, header field sizes, byte order, pad words equal the KMIP TTLV table; every structure writer computes its '
@@ -120,6 +119,25 @@ CHECKS = {
          'the request version, a time stamp, and reason/message exactly on failure arms; the session only sends engine-built responses. Byte identity with an '
          'independent encoder for all values is NOT decided.',
          'Trusted: T_TYPES/T_FIXED/T_SIZES transcribe KMIP section 9.1.'),
+}
+
+# rules added after the first plan (DESIGN.md section 11.2 lists every rule with its text as implemented)
+ADDED = {
+ 'C01': ' Added: BigInteger padding leaves room for the sign bit for every bit length (R3 sign-room); no constructor default shares a mutable container that decoders fill in place (R6).',
+ 'C02': ' Added: TextString/ByteString writers emit exactly len(value) value bytes, one struct-packed byte per counted element, then padding_length zero bytes (R6).',
+ 'C03': ' Added: the policy parser allocates each per-type/per-section table inside the iteration that fills and stores it (R10).',
+ 'C04': ' Added: a stored object whose value is used as derivation data is gated like the keying object (R3 derive_key.derivation_data).',
+ 'C05': ' Added: attribute rows fetched from the store are never linked into a second object (R6); only Activate/Revoke/Destroy and the attribute operations modify a loaded instance (R7).',
+ 'C06': ' Added: an object built from derivation output cannot hold more than the requested length (R6); every return of the symmetric cipher helpers passes finalize(), AAD is authenticated whenever given (R7).',
+ 'C07': ' Added: every query by unique identifier compares the column with the identifier exactly as received (R6).',
+ 'C09': ' Added: nothing in the package takes the database connection out of transactional mode (R4).',
+ 'C12': ' Added: every primitive stream read is checked for shortness (R7).',
+ 'C13': ' Added: identifiers kept in the placeholder or given to response payloads are strings on every path (R5); the policy queries test and look up the very name they are given (R2 tests-the-given-name).',
+ 'C14': ' Added: the lister includes an object only on the allowed edge of the decision taken for that object in the same iteration (R6).',
+ 'C15': ' Added: a row taken from the store is never attached to another object (R6).',
+ 'C16': ' Added: the six ProtocolVersion comparison operators, evaluated over the nine sign combinations of (major, minor), are the lexicographic order (R9).',
+ 'C18': ' Added: no snapshot of the policy structures is carried across iterations of a loop that updates them (R6, a loop-carried staleness rule; straight-line staleness and general history semantics remain undecided); enum/table lookups keyed by document data convert KeyError/TypeError to ValueError (R2).',
+ 'C20': ' Added: codec-layer exception texts never format a field that can render key material (R4); no handler stores a secret-bearing value into an engine field such as the ID placeholder (R5).',
 }
 
 NOT_YET = 'check not built yet in this session (rules designed in DESIGN.md section 4); will be claimed once its check exists and is silent on the unchanged tree'
@@ -139,7 +157,7 @@ def main():
                 'evidence_file': '/verif/evidence/%s.json' % p,
                 'replay_cmd_template': 'python3 -m pv explain {path}',
                 'engine': 'pv',
-                'level_claimed': {'category': 'other', 'text': text, 'design_ref': 'DESIGN.md section 4 %s' % p},
+                'level_claimed': {'category': 'other', 'text': text + ADDED.get(p, ''), 'design_ref': 'DESIGN.md section 4 %s and section 11.2' % p},
                 'level_note': note,
                 'technique': 'static analysis: ' + tech,
             })
